@@ -99,7 +99,7 @@ void h_other_copies(void)
 	for (k = 0; k < NC; ++k)
 		VERIF_ASSERT(g_stat[k] == (k < IN.n ? 1u : 0u), "every remaining content copy is examined once, by its own path");
 	VERIF_ASSERT(g_other == 0, "no other file is examined in their place");
-	VERIF_ASSERT(ST.need_write == (IN.need_write_before != 0 || want), "all the copies are rewritten iff a remaining copy is missing or has another size than the loaded one");
+	VERIF_ASSERT(!(IN.need_write_before != 0 || want) || ST.need_write, "all the copies are rewritten when a remaining copy is missing or has another size than the loaded one (and a rewrite already asked for is not cancelled)");
 	VERIF_CANARY();
 }
 
